@@ -1,18 +1,75 @@
-coq/Util.vo coq/Util.glob coq/Util.v.beautified coq/Util.required_vo: coq/Util.v 
-coq/Util.vio: coq/Util.v 
-coq/Util.vos coq/Util.vok coq/Util.required_vos: coq/Util.v 
 coq/Constants.vo coq/Constants.glob coq/Constants.v.beautified coq/Constants.required_vo: coq/Constants.v 
 coq/Constants.vio: coq/Constants.v 
 coq/Constants.vos coq/Constants.vok coq/Constants.required_vos: coq/Constants.v 
+coq/Crypto/AES.vo coq/Crypto/AES.glob coq/Crypto/AES.v.beautified coq/Crypto/AES.required_vo: coq/Crypto/AES.v 
+coq/Crypto/AES.vio: coq/Crypto/AES.v 
+coq/Crypto/AES.vos coq/Crypto/AES.vok coq/Crypto/AES.required_vos: coq/Crypto/AES.v 
+coq/Crypto/CTR.vo coq/Crypto/CTR.glob coq/Crypto/CTR.v.beautified coq/Crypto/CTR.required_vo: coq/Crypto/CTR.v 
+coq/Crypto/CTR.vio: coq/Crypto/CTR.v 
+coq/Crypto/CTR.vos coq/Crypto/CTR.vok coq/Crypto/CTR.required_vos: coq/Crypto/CTR.v 
+coq/Crypto/HMAC.vo coq/Crypto/HMAC.glob coq/Crypto/HMAC.v.beautified coq/Crypto/HMAC.required_vo: coq/Crypto/HMAC.v coq/Crypto/SHA1.vo
+coq/Crypto/HMAC.vio: coq/Crypto/HMAC.v coq/Crypto/SHA1.vio
+coq/Crypto/HMAC.vos coq/Crypto/HMAC.vok coq/Crypto/HMAC.required_vos: coq/Crypto/HMAC.v coq/Crypto/SHA1.vos
+coq/Crypto/SHA1.vo coq/Crypto/SHA1.glob coq/Crypto/SHA1.v.beautified coq/Crypto/SHA1.required_vo: coq/Crypto/SHA1.v coq/Crypto/CTR.vo
+coq/Crypto/SHA1.vio: coq/Crypto/SHA1.v coq/Crypto/CTR.vio
+coq/Crypto/SHA1.vos coq/Crypto/SHA1.vok coq/Crypto/SHA1.required_vos: coq/Crypto/SHA1.v coq/Crypto/CTR.vos
+coq/Driver.vo coq/Driver.glob coq/Driver.v.beautified coq/Driver.required_vo: coq/Driver.v coq/Util.vo coq/Constants.vo coq/KeyLimit.vo coq/Rdb.vo coq/Rdbx.vo coq/Icm.vo coq/World.vo coq/Stream.vo coq/Rtp.vo coq/Rtcp.vo coq/Session.vo coq/Crypto/AES.vo coq/Crypto/SHA1.vo coq/Crypto/HMAC.vo
+coq/Driver.vio: coq/Driver.v coq/Util.vio coq/Constants.vio coq/KeyLimit.vio coq/Rdb.vio coq/Rdbx.vio coq/Icm.vio coq/World.vio coq/Stream.vio coq/Rtp.vio coq/Rtcp.vio coq/Session.vio coq/Crypto/AES.vio coq/Crypto/SHA1.vio coq/Crypto/HMAC.vio
+coq/Driver.vos coq/Driver.vok coq/Driver.required_vos: coq/Driver.v coq/Util.vos coq/Constants.vos coq/KeyLimit.vos coq/Rdb.vos coq/Rdbx.vos coq/Icm.vos coq/World.vos coq/Stream.vos coq/Rtp.vos coq/Rtcp.vos coq/Session.vos coq/Crypto/AES.vos coq/Crypto/SHA1.vos coq/Crypto/HMAC.vos
+coq/Icm.vo coq/Icm.glob coq/Icm.v.beautified coq/Icm.required_vo: coq/Icm.v coq/Util.vo coq/Constants.vo coq/Crypto/AES.vo
+coq/Icm.vio: coq/Icm.v coq/Util.vio coq/Constants.vio coq/Crypto/AES.vio
+coq/Icm.vos coq/Icm.vok coq/Icm.required_vos: coq/Icm.v coq/Util.vos coq/Constants.vos coq/Crypto/AES.vos
+coq/IndexProofs.vo coq/IndexProofs.glob coq/IndexProofs.v.beautified coq/IndexProofs.required_vo: coq/IndexProofs.v coq/Util.vo coq/Constants.vo coq/Rdbx.vo
+coq/IndexProofs.vio: coq/IndexProofs.v coq/Util.vio coq/Constants.vio coq/Rdbx.vio
+coq/IndexProofs.vos coq/IndexProofs.vok coq/IndexProofs.required_vos: coq/IndexProofs.v coq/Util.vos coq/Constants.vos coq/Rdbx.vos
 coq/KeyLimit.vo coq/KeyLimit.glob coq/KeyLimit.v.beautified coq/KeyLimit.required_vo: coq/KeyLimit.v coq/Util.vo coq/Constants.vo
 coq/KeyLimit.vio: coq/KeyLimit.v coq/Util.vio coq/Constants.vio
 coq/KeyLimit.vos coq/KeyLimit.vok coq/KeyLimit.required_vos: coq/KeyLimit.v coq/Util.vos coq/Constants.vos
+coq/KeyLimitProofs.vo coq/KeyLimitProofs.glob coq/KeyLimitProofs.v.beautified coq/KeyLimitProofs.required_vo: coq/KeyLimitProofs.v coq/Util.vo coq/Constants.vo coq/KeyLimit.vo
+coq/KeyLimitProofs.vio: coq/KeyLimitProofs.v coq/Util.vio coq/Constants.vio coq/KeyLimit.vio
+coq/KeyLimitProofs.vos coq/KeyLimitProofs.vok coq/KeyLimitProofs.required_vos: coq/KeyLimitProofs.v coq/Util.vos coq/Constants.vos coq/KeyLimit.vos
+coq/Properties_C05.vo coq/Properties_C05.glob coq/Properties_C05.v.beautified coq/Properties_C05.required_vo: coq/Properties_C05.v coq/Util.vo coq/Constants.vo coq/Rdbx.vo coq/Seen.vo coq/IndexProofs.vo coq/RdbxProofs.vo
+coq/Properties_C05.vio: coq/Properties_C05.v coq/Util.vio coq/Constants.vio coq/Rdbx.vio coq/Seen.vio coq/IndexProofs.vio coq/RdbxProofs.vio
+coq/Properties_C05.vos coq/Properties_C05.vok coq/Properties_C05.required_vos: coq/Properties_C05.v coq/Util.vos coq/Constants.vos coq/Rdbx.vos coq/Seen.vos coq/IndexProofs.vos coq/RdbxProofs.vos
+coq/Properties_C06.vo coq/Properties_C06.glob coq/Properties_C06.v.beautified coq/Properties_C06.required_vo: coq/Properties_C06.v coq/Util.vo coq/Constants.vo coq/Rdbx.vo coq/Seen.vo coq/IndexProofs.vo coq/RdbxProofs.vo
+coq/Properties_C06.vio: coq/Properties_C06.v coq/Util.vio coq/Constants.vio coq/Rdbx.vio coq/Seen.vio coq/IndexProofs.vio coq/RdbxProofs.vio
+coq/Properties_C06.vos coq/Properties_C06.vok coq/Properties_C06.required_vos: coq/Properties_C06.v coq/Util.vos coq/Constants.vos coq/Rdbx.vos coq/Seen.vos coq/IndexProofs.vos coq/RdbxProofs.vos
+coq/Properties_C07.vo coq/Properties_C07.glob coq/Properties_C07.v.beautified coq/Properties_C07.required_vo: coq/Properties_C07.v coq/Util.vo coq/Constants.vo coq/Rdb.vo coq/Seen.vo coq/RdbProofs.vo
+coq/Properties_C07.vio: coq/Properties_C07.v coq/Util.vio coq/Constants.vio coq/Rdb.vio coq/Seen.vio coq/RdbProofs.vio
+coq/Properties_C07.vos coq/Properties_C07.vok coq/Properties_C07.required_vos: coq/Properties_C07.v coq/Util.vos coq/Constants.vos coq/Rdb.vos coq/Seen.vos coq/RdbProofs.vos
+coq/Properties_C09.vo coq/Properties_C09.glob coq/Properties_C09.v.beautified coq/Properties_C09.required_vo: coq/Properties_C09.v coq/Util.vo coq/Constants.vo coq/KeyLimit.vo coq/KeyLimitProofs.vo
+coq/Properties_C09.vio: coq/Properties_C09.v coq/Util.vio coq/Constants.vio coq/KeyLimit.vio coq/KeyLimitProofs.vio
+coq/Properties_C09.vos coq/Properties_C09.vok coq/Properties_C09.required_vos: coq/Properties_C09.v coq/Util.vos coq/Constants.vos coq/KeyLimit.vos coq/KeyLimitProofs.vos
 coq/Rdb.vo coq/Rdb.glob coq/Rdb.v.beautified coq/Rdb.required_vo: coq/Rdb.v coq/Util.vo coq/Constants.vo
 coq/Rdb.vio: coq/Rdb.v coq/Util.vio coq/Constants.vio
 coq/Rdb.vos coq/Rdb.vok coq/Rdb.required_vos: coq/Rdb.v coq/Util.vos coq/Constants.vos
+coq/RdbProofs.vo coq/RdbProofs.glob coq/RdbProofs.v.beautified coq/RdbProofs.required_vo: coq/RdbProofs.v coq/Util.vo coq/Constants.vo coq/Rdb.vo coq/Seen.vo
+coq/RdbProofs.vio: coq/RdbProofs.v coq/Util.vio coq/Constants.vio coq/Rdb.vio coq/Seen.vio
+coq/RdbProofs.vos coq/RdbProofs.vok coq/RdbProofs.required_vos: coq/RdbProofs.v coq/Util.vos coq/Constants.vos coq/Rdb.vos coq/Seen.vos
 coq/Rdbx.vo coq/Rdbx.glob coq/Rdbx.v.beautified coq/Rdbx.required_vo: coq/Rdbx.v coq/Util.vo coq/Constants.vo
 coq/Rdbx.vio: coq/Rdbx.v coq/Util.vio coq/Constants.vio
 coq/Rdbx.vos coq/Rdbx.vok coq/Rdbx.required_vos: coq/Rdbx.v coq/Util.vos coq/Constants.vos
-coq/Driver.vo coq/Driver.glob coq/Driver.v.beautified coq/Driver.required_vo: coq/Driver.v coq/Util.vo coq/Constants.vo coq/KeyLimit.vo coq/Rdb.vo coq/Rdbx.vo
-coq/Driver.vio: coq/Driver.v coq/Util.vio coq/Constants.vio coq/KeyLimit.vio coq/Rdb.vio coq/Rdbx.vio
-coq/Driver.vos coq/Driver.vok coq/Driver.required_vos: coq/Driver.v coq/Util.vos coq/Constants.vos coq/KeyLimit.vos coq/Rdb.vos coq/Rdbx.vos
+coq/RdbxProofs.vo coq/RdbxProofs.glob coq/RdbxProofs.v.beautified coq/RdbxProofs.required_vo: coq/RdbxProofs.v coq/Util.vo coq/Constants.vo coq/Rdbx.vo coq/Seen.vo coq/IndexProofs.vo
+coq/RdbxProofs.vio: coq/RdbxProofs.v coq/Util.vio coq/Constants.vio coq/Rdbx.vio coq/Seen.vio coq/IndexProofs.vio
+coq/RdbxProofs.vos coq/RdbxProofs.vok coq/RdbxProofs.required_vos: coq/RdbxProofs.v coq/Util.vos coq/Constants.vos coq/Rdbx.vos coq/Seen.vos coq/IndexProofs.vos
+coq/Rtcp.vo coq/Rtcp.glob coq/Rtcp.v.beautified coq/Rtcp.required_vo: coq/Rtcp.v coq/Util.vo coq/Constants.vo coq/KeyLimit.vo coq/Rdb.vo coq/Rdbx.vo coq/Icm.vo coq/World.vo coq/Stream.vo coq/Rtp.vo
+coq/Rtcp.vio: coq/Rtcp.v coq/Util.vio coq/Constants.vio coq/KeyLimit.vio coq/Rdb.vio coq/Rdbx.vio coq/Icm.vio coq/World.vio coq/Stream.vio coq/Rtp.vio
+coq/Rtcp.vos coq/Rtcp.vok coq/Rtcp.required_vos: coq/Rtcp.v coq/Util.vos coq/Constants.vos coq/KeyLimit.vos coq/Rdb.vos coq/Rdbx.vos coq/Icm.vos coq/World.vos coq/Stream.vos coq/Rtp.vos
+coq/Rtp.vo coq/Rtp.glob coq/Rtp.v.beautified coq/Rtp.required_vo: coq/Rtp.v coq/Util.vo coq/Constants.vo coq/KeyLimit.vo coq/Rdb.vo coq/Rdbx.vo coq/Icm.vo coq/World.vo coq/Stream.vo
+coq/Rtp.vio: coq/Rtp.v coq/Util.vio coq/Constants.vio coq/KeyLimit.vio coq/Rdb.vio coq/Rdbx.vio coq/Icm.vio coq/World.vio coq/Stream.vio
+coq/Rtp.vos coq/Rtp.vok coq/Rtp.required_vos: coq/Rtp.v coq/Util.vos coq/Constants.vos coq/KeyLimit.vos coq/Rdb.vos coq/Rdbx.vos coq/Icm.vos coq/World.vos coq/Stream.vos
+coq/Seen.vo coq/Seen.glob coq/Seen.v.beautified coq/Seen.required_vo: coq/Seen.v 
+coq/Seen.vio: coq/Seen.v 
+coq/Seen.vos coq/Seen.vok coq/Seen.required_vos: coq/Seen.v 
+coq/Session.vo coq/Session.glob coq/Session.v.beautified coq/Session.required_vo: coq/Session.v coq/Util.vo coq/Constants.vo coq/KeyLimit.vo coq/Rdb.vo coq/Rdbx.vo coq/Icm.vo coq/World.vo coq/Stream.vo coq/Rtp.vo
+coq/Session.vio: coq/Session.v coq/Util.vio coq/Constants.vio coq/KeyLimit.vio coq/Rdb.vio coq/Rdbx.vio coq/Icm.vio coq/World.vio coq/Stream.vio coq/Rtp.vio
+coq/Session.vos coq/Session.vok coq/Session.required_vos: coq/Session.v coq/Util.vos coq/Constants.vos coq/KeyLimit.vos coq/Rdb.vos coq/Rdbx.vos coq/Icm.vos coq/World.vos coq/Stream.vos coq/Rtp.vos
+coq/Stream.vo coq/Stream.glob coq/Stream.v.beautified coq/Stream.required_vo: coq/Stream.v coq/Util.vo coq/Constants.vo coq/KeyLimit.vo coq/Rdb.vo coq/Rdbx.vo coq/Icm.vo coq/World.vo coq/Crypto/AES.vo coq/Crypto/HMAC.vo
+coq/Stream.vio: coq/Stream.v coq/Util.vio coq/Constants.vio coq/KeyLimit.vio coq/Rdb.vio coq/Rdbx.vio coq/Icm.vio coq/World.vio coq/Crypto/AES.vio coq/Crypto/HMAC.vio
+coq/Stream.vos coq/Stream.vok coq/Stream.required_vos: coq/Stream.v coq/Util.vos coq/Constants.vos coq/KeyLimit.vos coq/Rdb.vos coq/Rdbx.vos coq/Icm.vos coq/World.vos coq/Crypto/AES.vos coq/Crypto/HMAC.vos
+coq/Util.vo coq/Util.glob coq/Util.v.beautified coq/Util.required_vo: coq/Util.v coq/Crypto/CTR.vo
+coq/Util.vio: coq/Util.v coq/Crypto/CTR.vio
+coq/Util.vos coq/Util.vok coq/Util.required_vos: coq/Util.v coq/Crypto/CTR.vos
+coq/World.vo coq/World.glob coq/World.v.beautified coq/World.required_vo: coq/World.v coq/Util.vo coq/Constants.vo coq/KeyLimit.vo coq/Rdb.vo coq/Rdbx.vo coq/Icm.vo
+coq/World.vio: coq/World.v coq/Util.vio coq/Constants.vio coq/KeyLimit.vio coq/Rdb.vio coq/Rdbx.vio coq/Icm.vio
+coq/World.vos coq/World.vok coq/World.required_vos: coq/World.v coq/Util.vos coq/Constants.vos coq/KeyLimit.vos coq/Rdb.vos coq/Rdbx.vos coq/Icm.vos
